@@ -5,3 +5,4 @@ import AkVerif.Props.C14
 import AkVerif.Props.C11
 import AkVerif.Props.C12
 import AkVerif.Props.C15
+import AkVerif.Props.C18
